@@ -313,6 +313,13 @@ def entryOp {w : Nat} (st : St w) (r : String) (m : PMap w Val) (s : Spec.SMap w
       -- the closure panics when called, i.e. when the entry is vacant; the map is unchanged
       (st, (match m.get q with | some v => toString v | none => "panic"),
            (match Spec.lookup s q with | some e => toString e.2 | none => "panic"))
+  | "and_modify_panic" :: rest =>
+      -- the closure panics when called, i.e. when the entry is occupied; the map (value included) is unchanged
+      match m.get q, Spec.lookup s q with
+      | some _, some _ => (st, "panic", "panic")
+      | none, none => entryOp st r m s q rest
+      | some _, none => (st, "panic", "vacant?")
+      | none, some _ => (st, "vacant?", "panic")
   | "and_modify" :: d :: rest => match d.toInt? with
     | some d =>
       let m' := m.modify q (· + d)
@@ -783,8 +790,8 @@ def step {w : Nat} (st : St w) (line : String) : Res w :=
           let s' := s.filter (fun e => !(calls.any (fun c => Spec.sameKey c.1 e.1 && !f c.1 c.2)))
           let sorted := calls.foldl (fun acc c => Spec.insertSorted c acc) ([] : Spec.SMap w Val)
           (st.set r m' s',
-            "calls=" ++ fmtList fmtPV calls ++ ";sorted=" ++ fmtList fmtPV sorted ++ ";" ++ (if panicked then "panic" else "done"),
-            "calls=*;sorted=" ++ (if panicked then "*" else fmtList fmtPV s) ++ ";" ++ (if panicked then "panic" else "done"))
+            "calls=" ++ fmtList fmtPV calls ++ ";sorted=" ++ fmtList fmtPV sorted ++ ";" ++ (if panicked then "panic" else "done") ++ ";consistent=ok",
+            "calls=*;sorted=" ++ (if panicked then "*" else fmtList fmtPV s) ++ ";" ++ (if panicked then "panic" else "done") ++ ";consistent=ok")
         | none => bad st
       | "collect", items =>
         match items.mapM (parsePV w st.masked) with
